@@ -300,6 +300,11 @@ def all_jobs():
     J.append(dict(id='fn_call', src='blocc/expression_functor.cpp', contract='fn_call.c', enforce=mg, roots=[mg], replace=[CTX_ALLOCATE, V_CLEAR], cut=[CREATEENV, CTX_ALLOCATE, V_CLEAR],
                   props=['C01', 'C05', 'C07', 'C08', 'C17'], pretty='bloc::FunctorExpression::value', canaries=['normal', 'exceptional'],
                   structs=DEFAULT_STRUCTS + ['bloc::Context', 'bloc::FunctorExpression', 'bloc::FunctorManager', 'bloc::FunctorManager::Entry', 'bloc::FunctorManager::Env', 'bloc::Functor', 'bloc::Statement']))
+    for jid, mg, df in (('utf8_tostdstring', '_ZNK10utf8helper10UTF8String11ToStdStringB5cxx11Ev', 'JOB_TOSTD'), ('utf8_remove', '_ZN10utf8helper10UTF8String6RemoveEmm', 'JOB_REMOVE')):
+        J.append(dict(id=jid, src='modules/utf8/utf8helper.cpp', contract='utf8_string.c', enforce=mg, roots=[mg], replace=[], cut=[], defines=[df],
+                      props=['C01', 'C18'], pretty='utf8helper::UTF8String::' + ('ToStdString' if df == 'JOB_TOSTD' else 'Remove'), canaries=['normal'], unwind=6, bounded_inputs=True,
+                      unwind_why='strings of at most 3 code points (every code point value)', render_ns=['utf8helper'], enums=[],
+                      structs=['utf8helper::UTF8String', 'utf8helper::Parser', STD_STRING, 'std::vector<unsigned int, std::allocator<unsigned int> >']))
     # ---- generic builtin contracts (C01, C05): one job per builtin listed here ----
     for ent in BUILTINS_GENERIC:
         name, cls, nargs = ent[0], ent[1], ent[2]
